@@ -17,6 +17,7 @@ from .quic.quic_dissector import get_header_type
 from .quic.quic_packet import QuicHeaderType
 from .quic.quic_session import QuicSession
 from .quic.quic_decode import QuicVersion
+from . import _verif
 
 
 
@@ -114,12 +115,14 @@ def handle_packet(packet: Packet, args, keylog: bytes, sessions: list[Session], 
 
     for session in sessions:
         if session.matches_session(packet):
+            _verif.emit("match", proto="tcp", idx=sessions.index(session), new=False, sport=packet.sport, dport=packet.dport, src=packet.ip_src, dst=packet.ip_dst, seq=packet.seq)
             session.handle_packet(packet)
             return
 
     # if no matching session is found, a new one is created
     if packet.dport in server_ports or packet.sport in server_ports:
         sessions.append(Session(packet, server_ports, keylog, portmap, keep_original_ports, exp_meta))
+        _verif.emit("match", proto="tcp", idx=len(sessions) - 1, new=True, sport=packet.sport, dport=packet.dport, src=packet.ip_src, dst=packet.ip_dst, seq=packet.seq)
         #sessions.append(Session(packet, server_ports, keylog, portmap, exp_meta))
 
 
@@ -158,23 +161,27 @@ def handle_quic_packet(packet: Packet, keylog, quic_sessions: list[QuicSession],
         # first try matching connection IDs
         if header_type == QuicHeaderType.LONG:
             if dcid in session.client_cids or dcid in session.server_cids:
+                _verif.emit("match", proto="quic", idx=quic_sessions.index(session), new=False, by="cid", cid=dcid, sport=packet.sport, dport=packet.dport, src=packet.ip_src, dst=packet.ip_dst, ts=repr(packet.timestamp))
                 session.handle_packet(packet, dcid, quic_version)
                 return
         else:
             # match by checking all known cid lengths for session
             for cid in session.client_cids | session.server_cids:
                 if cid == packet_payload[1:1 + len(cid)]:
+                    _verif.emit("match", proto="quic", idx=quic_sessions.index(session), new=False, by="cid", cid=cid, sport=packet.sport, dport=packet.dport, src=packet.ip_src, dst=packet.ip_dst, ts=repr(packet.timestamp))
                     session.handle_packet(packet, cid, quic_version)
                     return
 
         # check matching ip address and port for zero length cids
         if session.matches_session_dgram(packet.ip_src, packet.ip_dst, packet.sport, packet.dport):
+            _verif.emit("match", proto="quic", idx=quic_sessions.index(session), new=False, by="addr", cid=dcid, sport=packet.sport, dport=packet.dport, src=packet.ip_src, dst=packet.ip_dst, ts=repr(packet.timestamp))
             session.handle_packet(packet, dcid, quic_version)
             return
 
     if header_type != QuicHeaderType.SHORT:
         new_session = QuicSession(packet, server_ports, keylog, portmap)
         quic_sessions.append(new_session)
+        _verif.emit("match", proto="quic", idx=len(quic_sessions) - 1, new=True, by="new", cid=dcid, sport=packet.sport, dport=packet.dport, src=packet.ip_src, dst=packet.ip_dst, ts=repr(packet.timestamp))
         new_session.handle_packet(packet, dcid, quic_version)
 
 
@@ -216,6 +223,7 @@ def run():
 
         if ts == -1:
             keylog.extend(keylog_reader.get_keys_from_string(buf.decode('ascii')))  # adds secrets from decryption secret block to keylog
+            _verif.emit("block", kind="dsb", nkeys=len(keylog))
             continue
 
         if packet.tcp_packet:
@@ -226,6 +234,7 @@ def run():
                 checksum_test = True
             else:
                 checksum_test = calculate_checksum_tcp(packet)
+            _verif.emit("block", kind="tcp", ts=repr(ts), sport=packet.sport, dport=packet.dport, seq=packet.seq, len=len(packet.tls_data), csum_ok=bool(checksum_test), checked=bool(args.checksumTest))
 
             if not checksum_test:
                 logging.info("")
@@ -243,6 +252,7 @@ def run():
                 checksum_test = True
             else:
                 checksum_test = calculate_checksum_udp(packet)
+            _verif.emit("block", kind="udp", ts=repr(ts), sport=packet.sport, dport=packet.dport, len=len(packet.tls_data), csum_ok=bool(checksum_test), checked=bool(args.checksumTest))
 
             if not checksum_test:
                 logging.info("")
@@ -266,6 +276,7 @@ def run():
     for quic_session in quic_sessions:
         all_decrypted_sessions.extend(quic_session.build_output(metadata))
 
+    _verif.emit("finish", nout=len(all_decrypted_sessions), nkeys=len(keylog), ntls=len(sessions), nquic=len(quic_sessions), ports=list(server_ports))
     file = open(args.outfile, "wb")
 
     writer = dpkt.pcapng.Writer(file, snaplen=20000)
